@@ -159,6 +159,15 @@ reg("C10", "Hypothesis operation histories -> src/c10_hist.c (ASan): long-lived 
     "field-damaged variants. Stream, positional and per-block file access must agree on readable files.",
     "Directory readers use flags 0 (DOT_ENTRIES caching is documented as history dependent); digests are FNV-1a over payloads.", "DESIGN.md 4/C10")
 
+reg("C19", "Hypothesis programs -> src/c19_copy.c (ASan): copy vs twin with the same history, both release orders", "exploration",
+    "stateful property-based testing of sqfs_copy(): equivalence with a twin object, independence from the original, release in both orders under ASan",
+    "After a generated pre-history every object of a reader set (file, compressor, id table, dir/data/xattr/meta reader) is duplicated with sqfs_copy(); "
+    "interleaved operations on original and copy follow, the copy's answers are compared with a twin built by replaying the pre-history on fresh "
+    "objects, either object is released at a random point and the survivor keeps being used. Compressor copies (all ids, both directions) and xattr "
+    "writer copies (sets before / only on the original / after; flushed bytes compared with a twin writer) are covered by dedicated operations.",
+    "Images from the C10 pool; leak detection is off (the property speaks about crashes and state, leaks of the harness itself would be noise).",
+    "DESIGN.md 4/C19")
+
 NOT_YET = {}
 
 ALL = ["C%02d" % i for i in range(1, 20)]
